@@ -167,6 +167,8 @@ def perturbations(gtirb, rng, ir):
             yield "symbol.at_end", lambda x, Y=Y: setattr(
                 Y(x), "at_end", not Y(x).at_end)
             yield "symbol payload", lambda x, Y=Y: change_payload(Y(x))
+            yield "symbol payload none<->referent", lambda x, Y=Y, M=M: \
+                toggle_referent(Y(x), M(x))
     edges = list(ir.cfg)
     if edges:
         yield "edge remove", lambda x: x.cfg.discard(sorted_edges(x)[0])
@@ -238,6 +240,44 @@ def change_payload(s):
         s.value = 0
 
 
+def toggle_referent(s, m):
+    if s.referent is not None:
+        s.referent = None
+    else:
+        cands = sorted(list(m.byte_blocks) + list(m.proxies),
+                       key=lambda b: b.uuid.bytes)
+        if not cands:
+            raise ValueError("no block to refer to")
+        s.referent = cands[0]
+
+
+def shuffled_file(gtirb, rng, raw):
+    """the same IR written by 'another producer': every repeated field of the
+    message in another order (so that loading inserts children, edges, flags
+    in another order than the original construction did)"""
+    msg = ms.parse_file(gtirb, raw)
+
+    def shuf(rep):
+        items = list(rep)
+        rng.shuffle(items)
+        del rep[:]
+        rep.extend(items)
+    for m in msg.modules:
+        shuf(m.symbols)
+        shuf(m.proxies)
+        shuf(m.sections)
+        for s in m.sections:
+            shuf(s.section_flags)
+            shuf(s.byte_intervals)
+            for x in s.byte_intervals:
+                shuf(x.blocks)
+                for k in x.symbolic_expressions:
+                    shuf(x.symbolic_expressions[k].attribute_flags)
+    shuf(msg.cfg.edges)
+    shuf(msg.cfg.vertices)
+    return raw[:8] + msg.SerializeToString()
+
+
 def swap_kind(G, ir, b):
     """replace b by a block of the other kind with the same uuid/offset/size
     (only when nothing references b: references would dangle)"""
@@ -287,6 +327,11 @@ def run(ctx):
         if no % 2:
             ms.add_aux(gen, gtirb, rng, ir0)
         raw = ms.save(ir0)
+        if no % 3 != 2:
+            try:
+                raw = shuffled_file(gtirb, rng, raw)
+            except Exception:   # noqa (forward references after shuffling
+                pass            # symbols cannot happen: modules keep order)
         V0 = irdump.dump_irv(gtirb, ir0, lambda c, k: b"")
         C0 = canon_dump(gtirb, ir0)
         perts = list(perturbations(gtirb, rng, ir0))
